@@ -262,6 +262,36 @@ pub mod points {
             }
         })
     }
+    /// a G1 point of order exactly 3 (cofactor / 3 times the cofactor-torsion point; the cofactor of G1 is 3 * ...):
+    /// every Lagrange coefficient that is a multiple of 3 - e.g. r - 1 for identifiers (1, 2) - annihilates it, so a
+    /// recombination that validates only its *result* does not see it
+    pub fn order3_g1() -> Option<G1Projective> {
+        const H1_DIV_3_BE: [u8; 16] = [0x13, 0x24, 0x2e, 0xaa, 0xc7, 0x1c, 0xa0, 0x72, 0x2e, 0xaa, 0xe3, 0x8e, 0x55, 0x55, 0x8e, 0x39];
+        let t: [u8; 48] = g1().torsion.clone().try_into().ok()?;
+        let base = G1Projective::from(Option::<G1Affine>::from(G1Affine::from_compressed_unchecked(&t))?);
+        let mut acc = G1Projective::identity();
+        for byte in H1_DIV_3_BE.iter() {
+            for i in (0..8).rev() {
+                acc = acc.double();
+                if (byte >> i) & 1 == 1 {
+                    acc += base;
+                }
+            }
+        }
+        if bool::from(acc.is_identity()) || !bool::from((acc.double() + acc).is_identity()) {
+            return None;
+        }
+        Some(acc)
+    }
+    /// valid G1 point + the order-3 point (48-byte encodings only; None for G2-sized input)
+    pub fn shifted_order3(valid: &[u8]) -> Option<Vec<u8>> {
+        if valid.len() != 48 {
+            return None;
+        }
+        let a: [u8; 48] = valid.try_into().ok()?;
+        let p = G1Projective::from(Option::<G1Affine>::from(G1Affine::from_compressed_unchecked(&a))?) + order3_g1()?;
+        Some(p.to_affine().to_compressed().to_vec())
+    }
     /// valid point + small-order point: on the curve, outside the subgroup, pairing-equivalent
     pub fn shifted(valid: &[u8]) -> Vec<u8> {
         if valid.len() == 48 {
